@@ -400,6 +400,7 @@ func properties() map[string]Property {
 		}
 		c07 = append(c07, Job{Harness: "H_C07_bool", Args: a, Tier: tier, Covers: []string{"C07.bool.done"}, Bounds: "BooleanOpPathsD(ct, fr, p): " + c07b})
 	}
+	c07 = append(c07, Job{Harness: "H_C07_rect_trunc", Tier: "quick", Excuses: []string{"C07.rect-trunc"}, KnownOnly: true, Bounds: "RectClipPathsD with a concrete rectangle whose scaled bounds have fractional part 0.6 (known finding: ScaleRectD truncates)"})
 	c07 = append(c07, Job{Harness: "H_C07_p0", Tier: "quick", Excuses: []string{"C07.precision-zero"}, KnownOnly: true, Bounds: "precision 0 on a fixed pair of squares with fractional coordinates (known finding: 0 is treated as the default 2)"})
 	for _, a := range [][]int64{{0, 2}, {1, 2}} {
 		c07 = append(c07, Job{Harness: "H_C07_mink", Args: a, Tier: "quick", Covers: []string{"C07.mink.done"}, Bounds: "MinkowskiSumD/DiffD(diff, p): " + c07b})
